@@ -187,6 +187,23 @@ Definition len_decode (r : rc) (ps : probs) (base pos_state : N) : N * rc * prob
     else
       let '(s, r, ps) := bittree 8 r ps (base + 258) 1 in (s - 256 + 18, r, ps).
 
+(** distance of a new match: slot, then footer bits (reverse bit tree, or direct bits + align) *)
+Definition dist_decode (r : rc) (ps : probs) (len : N) : (N * N) * rc * probs :=
+  let '(slot, r, ps) := bittree 6 r ps (P_DIST_SLOT (dist_state len)) 1 in
+  let slot := slot - 64 in
+  let '(d, r, ps) :=
+    if slot <? 4 then (slot, r, ps)
+    else
+      let nb := slot / 2 - 1 in
+      let d0 := (2 + slot mod 2) * 2 ^ nb in
+      if slot <? 14 then
+        let '(x, r, ps) := bittree_rev (N.to_nat nb) r ps (P_POS_SPECIAL + d0 - slot - 1) 1 1 0 in (d0 + x, r, ps)
+      else
+        let '(x, r) := direct_bits (N.to_nat (nb - 4)) r 0 in
+        let '(a, r, ps) := bittree_rev 4 r ps P_ALIGN 1 1 0 in
+        ((d0 + x * 16 + a) mod 4294967296, r, ps) in
+  ((slot, d), r, ps).
+
 (** matched literal: 8 bits, using the match byte while bits agree *)
 Fixpoint lit_matched (n : nat) (r : rc) (ps : probs) (base : N) (mb sym : N) (matched : bool) : N * rc * probs :=
   match n with
@@ -252,20 +269,7 @@ Definition symbol (z : lz) : lz :=
       (* match with new distance *)
       let '(len, r, ps) := len_decode r ps P_MATCH_LEN pos_state in
       let st' := st_match st in
-      let ds := dist_state len in
-      let '(slot, r, ps) := bittree 6 r ps (P_DIST_SLOT ds) 1 in
-      let slot := slot - 64 in
-      let '(d, r, ps) :=
-        if slot <? 4 then (slot, r, ps)
-        else
-          let nb := slot / 2 - 1 in
-          let d0 := (2 + slot mod 2) * 2 ^ nb in
-          if slot <? 14 then
-            let '(x, r, ps) := bittree_rev (N.to_nat nb) r ps (P_POS_SPECIAL + d0 - slot - 1) 1 1 0 in (d0 + x, r, ps)
-          else
-            let '(x, r) := direct_bits (N.to_nat (nb - 4)) r 0 in
-            let '(a, r, ps) := bittree_rev 4 r ps P_ALIGN 1 1 0 in
-            ((d0 + x * 16 + a) mod 4294967296, r, ps) in
+      let '((slot, d), r, ps) := dist_decode r ps len in
       if rfail r then with_status (set_reps z r ps st (rep0 z) (rep1 z) (rep2 z) (rep3 z)) Truncated
       else if (14 <=? slot) && (d =? 4294967295) then
         (* end of payload marker *)
